@@ -16,7 +16,7 @@ import time
 VERIF = os.path.dirname(os.path.dirname(os.path.abspath(__file__)))
 SPEC = os.path.join(VERIF, "spec")
 HARNESS = os.path.join(VERIF, "harness")
-WORK = os.path.join(VERIF, "work")
+WORK = os.environ.get("VERIF_WORK") or os.path.join(VERIF, "work")   # VERIF_WORK: author's background sweeps use a separate scratch directory
 EVID = os.environ.get("VERIF_EVIDENCE_DIR") or os.path.join(VERIF, "evidence")
 REPLAYS = os.path.join(VERIF, "replays")
 JAVA_CP = "/opt/veriftools/tla/tla2tools.jar:/opt/veriftools/tla/CommunityModules-deps.jar"
